@@ -4,13 +4,14 @@
 
   Helper lemmas: Proofs/C03_Lemmas.lean (insertion, dmag2, storage), Proofs/C03_Geometry.lean (bins, sweep,
   superbox, ghosts), Proofs/C03_Text.lean (dump/load), Proofs/C03_Bins.lean (bin table with capacity), Proofs/C03_Scale.lean (scaled /
-  translated systems).
+  translated systems), Proofs/C03_Mirror.lean (mirrored / re-spanned / reordered / renamed descriptions of one system).
 -/
 import Proofs.C03_Lemmas
 import Proofs.C03_Geometry
 import Proofs.C03_Text
 import Proofs.C03_Bins
 import Proofs.C03_Scale
+import Proofs.C03_Mirror
 
 set_option linter.unusedSimpArgs false
 set_option linter.unusedVariables false
@@ -449,6 +450,120 @@ theorem nlist_translate_invariant (t : V3 ℚ) (S : Sys) (cutoff : ℚ) (hc : 0 
     exact insideCell_translate t S _ (hin k hk')
   rw [alg_complete (translateSys t S) cutoff hc hin' i (by rw [translateSys_natoms]; exact hi),
     alg_complete S cutoff hc hin i hi, spec_translate_invariant t S cutoff i hi]
+
+/-! ### one system, many descriptions: signs of the cell vectors, their order, the names of the axes -/
+
+/-- two systems with the same number of atoms and the same pairwise periodic distances have the same specification. -/
+theorem spec_congr (S T : Sys) (hn : T.natoms = S.natoms) (hd : ∀ u v, dist2 T u v = dist2 S u v) (cutoff : ℚ) (i : Nat) :
+    nlistSpec T cutoff i = nlistSpec S cutoff i := by
+  unfold nlistSpec
+  rw [hn]
+  apply List.filter_congr
+  intro j _
+  rw [hd]
+
+/-- ... and, when in both the atoms lie inside the cell, the same computed lists. -/
+theorem nlist_congr (S T : Sys) (hn : T.natoms = S.natoms) (hd : ∀ u v, dist2 T u v = dist2 S u v) (cutoff : ℚ)
+    (hc : 0 < cutoff) (hinS : ∀ i, i < S.natoms → InsideCell S (S.posOf i))
+    (hinT : ∀ i, i < T.natoms → InsideCell T (T.posOf i)) (i : Nat) (hi : i < S.natoms) :
+    rowOf (nlistL T cutoff) i = rowOf (nlistL S cutoff) i := by
+  rw [alg_complete T cutoff hc hinT i (by rw [hn]; exact hi), alg_complete S cutoff hc hinS i hi,
+    spec_congr S T hn hd]
+
+/-- **spec_mirror_invariant**: reflecting the whole system through coordinate planes (every Cartesian component of
+    the cell vectors, the origin and the positions multiplied by a sign `σ_j = ±1`) leaves the specification unchanged.
+    `diag(5, 6, 7)` becomes `diag(5, 6, -7)` with the origin on the top face; a LAMMPS-form cell gets any sign pattern
+    on its diagonal; an odd number of reflections makes a right-handed cell left-handed. -/
+theorem spec_mirror_invariant (σ : V3 ℚ) (hσ : IsSign σ) (S : Sys) (cutoff : ℚ) (i : Nat) :
+    nlistSpec (mirrorSys σ S) cutoff i = nlistSpec S cutoff i :=
+  spec_congr S _ (mirrorSys_natoms σ S) (dist2_mirror σ hσ S) cutoff i
+
+/-- **nlist_mirror_invariant**: for atoms inside the cell the lists the algorithm computes (superbox, bins, ghosts,
+    sweep: all of them look different in the mirror) are the same for the reflected system. -/
+theorem nlist_mirror_invariant (σ : V3 ℚ) (hσ : IsSign σ) (S : Sys) (cutoff : ℚ) (hc : 0 < cutoff)
+    (hin : ∀ i, i < S.natoms → InsideCell S (S.posOf i)) (i : Nat) (hi : i < S.natoms) :
+    rowOf (nlistL (mirrorSys σ S) cutoff) i = rowOf (nlistL S cutoff) i := by
+  refine nlist_congr S _ (mirrorSys_natoms σ S) (dist2_mirror σ hσ S) cutoff hc hin ?_ i hi
+  intro k hk
+  rw [mirrorSys_posOf]
+  exact insideCell_mirror σ S _ (hin k (by rwa [mirrorSys_natoms] at hk))
+
+/-- **spec_farface_invariant**: the same cell spanned from the far face of any of its vectors (the flagged vectors
+    negated, the origin moved onto their far faces, the atoms untouched) has the same specification: the 27 / 9 / 3
+    candidate separations are the same set. -/
+theorem spec_farface_invariant (f0 f1 f2 : Bool) (S : Sys) (cutoff : ℚ) (i : Nat) :
+    nlistSpec (farFaceSys f0 f1 f2 S) cutoff i = nlistSpec S cutoff i :=
+  spec_congr S _ (farFaceSys_natoms f0 f1 f2 S) (dist2_farFace f0 f1 f2 S) cutoff i
+
+/-- **nlist_farface_invariant**: ... and, the atoms being inside the cell (they still are: relative coordinate `r`
+    becomes `1 - r` along a negated vector), the same computed lists. -/
+theorem nlist_farface_invariant (f0 f1 f2 : Bool) (S : Sys) (cutoff : ℚ) (hc : 0 < cutoff)
+    (hin : ∀ i, i < S.natoms → InsideCell S (S.posOf i)) (i : Nat) (hi : i < S.natoms) :
+    rowOf (nlistL (farFaceSys f0 f1 f2 S) cutoff) i = rowOf (nlistL S cutoff) i := by
+  refine nlist_congr S _ (farFaceSys_natoms f0 f1 f2 S) (dist2_farFace f0 f1 f2 S) cutoff hc hin ?_ i hi
+  intro k hk
+  rw [farFaceSys_posOf]
+  exact insideCell_farFace f0 f1 f2 S _ (hin k hk)
+
+/-- **spec_reorder_invariant**: listing the cell vectors (with their periodicity flags) in another order — the two
+    generators of all six orders: first two exchanged, all three rotated — leaves the specification unchanged. -/
+theorem spec_reorder_invariant (S : Sys) (cutoff : ℚ) (i : Nat) :
+    nlistSpec (swapVecSys S) cutoff i = nlistSpec S cutoff i ∧
+    nlistSpec (cycleVecSys S) cutoff i = nlistSpec S cutoff i :=
+  ⟨spec_congr S (swapVecSys S) rfl (dist2_swapVec S) cutoff i, spec_congr S (cycleVecSys S) rfl (dist2_cycleVec S) cutoff i⟩
+
+/-- **nlist_reorder_invariant**: ... and, for atoms inside the cell, the computed lists. -/
+theorem nlist_reorder_invariant (S : Sys) (cutoff : ℚ) (hc : 0 < cutoff)
+    (hin : ∀ i, i < S.natoms → InsideCell S (S.posOf i)) (i : Nat) (hi : i < S.natoms) :
+    rowOf (nlistL (swapVecSys S) cutoff) i = rowOf (nlistL S cutoff) i ∧
+    rowOf (nlistL (cycleVecSys S) cutoff) i = rowOf (nlistL S cutoff) i := by
+  constructor
+  · exact nlist_congr S (swapVecSys S) rfl (dist2_swapVec S) cutoff hc hin
+      (fun k hk => insideCell_swapVec S _ (hin k hk)) i hi
+  · exact nlist_congr S (cycleVecSys S) rfl (dist2_cycleVec S) cutoff hc hin
+      (fun k hk => insideCell_cycleVec S _ (hin k hk)) i hi
+
+/-- **spec_axes_invariant**: renaming the Cartesian axes (generators: x and y exchanged — a reflection —, all three
+    rotated) leaves the specification unchanged; with `spec_mirror_invariant` this covers all 48 signed
+    permutations of the axes (an axis-aligned cell may have its one non-zero entry per row anywhere, with any sign). -/
+theorem spec_axes_invariant (S : Sys) (cutoff : ℚ) (i : Nat) :
+    nlistSpec (mapSys swapXY S) cutoff i = nlistSpec S cutoff i ∧
+    nlistSpec (mapSys cycleXYZ S) cutoff i = nlistSpec S cutoff i :=
+  ⟨spec_congr S _ (mapSys_natoms _ S) (dist2_swapXY S) cutoff i,
+   spec_congr S _ (mapSys_natoms _ S) (dist2_cycleXYZ S) cutoff i⟩
+
+/-- **nlist_axes_invariant**: ... and, for atoms inside the cell, the computed lists. -/
+theorem nlist_axes_invariant (S : Sys) (cutoff : ℚ) (hc : 0 < cutoff)
+    (hin : ∀ i, i < S.natoms → InsideCell S (S.posOf i)) (i : Nat) (hi : i < S.natoms) :
+    rowOf (nlistL (mapSys swapXY S) cutoff) i = rowOf (nlistL S cutoff) i ∧
+    rowOf (nlistL (mapSys cycleXYZ S) cutoff) i = rowOf (nlistL S cutoff) i := by
+  constructor
+  · refine nlist_congr S _ (mapSys_natoms _ S) (dist2_swapXY S) cutoff hc hin ?_ i hi
+    intro k hk
+    rw [mapSys_posOf swapXY rfl]
+    exact insideCell_swapXY S _ (hin k (by rwa [mapSys_natoms] at hk))
+  · refine nlist_congr S _ (mapSys_natoms _ S) (dist2_cycleXYZ S) cutoff hc hin ?_ i hi
+    intro k hk
+    rw [mapSys_posOf cycleXYZ rfl]
+    exact insideCell_cycleXYZ S _ (hin k (by rwa [mapSys_natoms] at hk))
+
+/-- the tester's cell: `diag(5, 6, -7)` with the origin on the top face is `diag(5, 6, 7)` seen in the mirror `z → -z`;
+    two atoms 1 apart through the periodic face along the negative vector are neighbors (cutoff 3/2) in the
+    specification and in the model, exactly as in the unmirrored cell. -/
+def downSys : Sys :=
+  ⟨⟨⟨5, 0, 0⟩, ⟨0, 6, 0⟩, ⟨0, 0, -7⟩⟩, ⟨1, 1, 7⟩, false, false, true, [⟨7/2, 4, 133/20⟩, ⟨7/2, 4, 13/20⟩]⟩
+
+example : downSys = mirrorSys ⟨1, 1, -1⟩
+      ⟨⟨⟨5, 0, 0⟩, ⟨0, 6, 0⟩, ⟨0, 0, 7⟩⟩, ⟨1, 1, -7⟩, false, false, true, [⟨7/2, 4, -133/20⟩, ⟨7/2, 4, -13/20⟩]⟩ := by
+  simp only [downSys, mirrorSys, mulV, List.map]
+  norm_num
+
+example : IsSign ⟨1, 1, -1⟩ := by
+  unfold IsSign
+  norm_num
+
+example : dist2 downSys 0 1 = 1 ∧ nlistSpec downSys (3/2) 0 = [1] ∧ nlistL downSys (3/2) = [[1], [0]] := by
+  decide +kernel
 
 /-- a cutoff longer than the Frobenius norm `√(|a|² + |b|² + |c|²)` of the cell matrix does NOT make every pair a
     neighbor: sheared cell `lx = ly = lz = 4, xy = 3`, no periodic direction, atoms at the two ends of the longest
